@@ -126,7 +126,7 @@ pub fn generate(tier: Tier, rng: &mut Rng) -> Vec<Case> {
     let default = CtxSpec::default_ctx();
     let mut civils: Vec<Civil> = vec![];
     let years = [1i64, 4, 100, 400, 1582, 1600, 1900, 1970, 1999, 2000, 2023, 2024, 2038, 2100, 9999];
-    let offsets = [0i64, -43200, 50400, 19800, -3600, 3600, 5400 * -1, 45 * 60];
+    let offsets = [0i64, -43200, 50400, 19800, -3600, 3600, 5400 * -1, 45 * 60, -1800, -900, -60, 60, -3660];
     for &y in &years {
         for mo in 1..=12u32 {
             for d in [1, dim(y, mo)] {
@@ -202,12 +202,12 @@ pub fn generate(tier: Tier, rng: &mut Rng) -> Vec<Case> {
         push(&mut out, &spec, "[a < b, a <= b, a == b, a != b, a > b, a >= b]", Some(ok(&format!("(list {} {} {} {} {} {})", bit(ua < ub), bit(ua <= ub), bit(ua == ub), bit(ua != ub), bit(ua > ub), bit(ua >= ub)))), vec!["compare"]);
         push(&mut out, &spec, "a - b", Some(ok(&format!("(dur {})", ua - ub))), vec!["difference"]);
         // durations up to +-292 years
-        let dns: i128 = match rng.below(5) {
+        let dns: i128 = match rng.below(6) {
             0 => 0,
             1 => rng.range(-1_000_000_000, 1_000_000_000) as i128,
             2 => rng.range(-86_400, 86_400) as i128 * 1_000_000_000,
             3 => (rng.next() as i64) as i128,
-            _ => *rng.pick(&[i64::MAX as i128, i64::MIN as i128, 1, -1, 31_536_000_000_000_000]),
+            _ => *rng.pick(&[i64::MAX as i128, i64::MIN as i128, 1, -1, 31_536_000_000_000_000, 86_400_000_000_000, -86_400_000_000_000, -31_536_000_000_000_000, 7 * 86_400_000_000_000, -7 * 86_400_000_000_000, -366 * 86_400_000_000_000, 43_200_000_000_000, -43_200_000_000_000]),
         };
         spec.vars.push(("d".into(), Value::Duration(dur_from_ns(dns).unwrap())));
         let sum = ua + dns;
